@@ -8,6 +8,8 @@ import (
 
 const (
 	scratchByteArrayLen = 32
+
+	maxConsecutiveEmptyReads = 100
 )
 
 var (
@@ -278,14 +280,23 @@ func (z *readerToScanner) Read(p []byte) (n int, err error) {
 }
 
 func (z *readerToScanner) ReadByte() (c byte, err error) {
-	n, err := z.Read(z.b[:])
-	if n == 1 {
-		c = z.b[0]
-		if err == io.EOF {
-			err = nil // read was successful, so postpone EOF (till next time)
+	// An io.Reader may legally return (0, nil); that is not a byte, so try again
+	// (giving up with io.ErrNoProgress like bufio does if the reader never delivers).
+	for i := 0; i <= maxConsecutiveEmptyReads; i++ {
+		var n int
+		n, err = z.Read(z.b[:])
+		if n == 1 {
+			c = z.b[0]
+			if err == io.EOF {
+				err = nil // read was successful, so postpone EOF (till next time)
+			}
+			return
+		}
+		if err != nil {
+			return
 		}
 	}
-	return
+	return 0, io.ErrNoProgress
 }
 
 func (z *readerToScanner) UnreadByte() (err error) {
